@@ -400,9 +400,64 @@ def tr_undo_half(fn):
 
 
 # ---------------------------------------------------------------------------------------------------------------
+# 5. Engine.get_formula_value: what is saved before and put back after the evaluation of one cell (C29)
+
+def tr_get_formula_value(fn):
+  out = []
+  saved_var = None
+  def guard_of_save(value):
+    if ast.unparse(value) == 'set(self.docmodel._auto_remove_set)':
+      return 'GAlways'
+    if isinstance(value, ast.IfExp) and ast.unparse(value.body) == 'set(self.docmodel._auto_remove_set)':
+      return 'GCond'
+    return None
+  def restore(s, guard):
+    if isinstance(s, ast.Assign) and ast.unparse(s.targets[0]) == 'self.docmodel._auto_remove_set':
+      if saved_var is None or ast.unparse(s.value) != saved_var:
+        fail(s, '_auto_remove_set is not set back to the saved set')
+      out.append((guard, 'FRestoreAutoRemoves'))
+      return True
+    return False
+  for s in body_of(fn):
+    src = ast.unparse(s)
+    if isinstance(s, ast.Assign) and src == 'checkpoint = self._get_undo_checkpoint()':
+      out.append(('GAlways', 'FCheckpoint'))
+    elif isinstance(s, ast.Assign) and '_auto_remove_set' in src:
+      g = guard_of_save(s.value)
+      if g is None or not isinstance(s.targets[0], ast.Name):
+        fail(s, 'unknown use of _auto_remove_set before the evaluation')
+      saved_var = s.targets[0].id
+      out.append((g, 'FSaveAutoRemoves'))
+    elif isinstance(s, ast.Assign) and src in ('table = self.tables[table_id]', 'col = table.get_column(col_id)',
+                                               'self._sync_request = True'):
+      continue
+    elif isinstance(s, ast.Try):
+      if s.handlers or s.orelse or len(s.body) != 1 or not isinstance(s.body[0], ast.Return) or \
+         not ast.unparse(s.body[0].value).startswith('self._recompute_one_cell('):
+        fail(s, 'the evaluation is no longer "try: return self._recompute_one_cell(...) finally: ..."')
+      out.append(('GAlways', 'FEvaluate'))
+      for f in s.finalbody:
+        fsrc = ast.unparse(f)
+        if fsrc == 'self._sync_request = False':
+          continue
+        if fsrc == 'self._undo_to_checkpoint(checkpoint)':
+          out.append(('GAlways', 'FUndoToCheckpoint'))
+        elif restore(f, 'GAlways'):
+          pass
+        elif isinstance(f, ast.If) and not f.orelse and len(f.body) == 1 and restore(f.body[0], 'GCond'):
+          pass
+        else:
+          fail(f, 'statement outside the translated subset in the finally of get_formula_value')
+    else:
+      fail(s, 'statement outside the translated subset in get_formula_value')
+  return out
+
+
+# ---------------------------------------------------------------------------------------------------------------
 
 PIN_LIST = [('engine.py', 'Engine', 'apply_user_actions'), ('engine.py', 'Engine', 'apply_doc_action'),
-            ('engine.py', 'Engine', '_apply_one_user_action'),
+            ('engine.py', 'Engine', '_apply_one_user_action'), ('engine.py', 'Engine', 'get_formula_value'),
+            ('docmodel.py', 'DocModel', 'apply_auto_removes'), ('docmodel.py', 'DocModel', 'setAutoRemove'),
             ('docactions.py', 'DocActions', 'BulkAddRecord'), ('docactions.py', 'DocActions', 'BulkRemoveRecord'),
             ('docactions.py', 'DocActions', 'BulkUpdateRecord'), ('docactions.py', 'DocActions', 'ReplaceTableData'),
             ('action_obj.py', 'ActionGroup', 'flush_calc_changes'),
@@ -414,7 +469,7 @@ PIN_LIST = [('engine.py', 'Engine', 'apply_user_actions'), ('engine.py', 'Engine
 
 def generate():
   """(text of coq/gen/Rollback_gen.v, info dict)."""
-  trees = {f: parse(f) for f in ('engine.py', 'docactions.py', 'action_obj.py', 'action_summary.py')}
+  trees = {f: parse(f) for f in ('engine.py', 'docactions.py', 'action_obj.py', 'action_summary.py', 'docmodel.py')}
   eng, doc = trees['engine.py'], trees['docactions.py']
   out = ['(* GENERATED by /verif/harness/rb2v.py from sandbox/grist/{engine,docactions,action_obj,action_summary}.py',
          '   -- regenerated on every run; bridged to Model/Rollback.v in Proofs/Rollback_bridge.v. *)',
@@ -440,6 +495,9 @@ def generate():
   out += ['(* ActionGroup.flush_calc_changes / ActionSummary._changes_to_actions: where the restoring updates go *)',
           'Definition gen_flush_target : flushkind := %s.' % fl,
           'Definition gen_undo_half : list (upos * urows * unames) :=\n  [%s].' % '; '.join(uh), '']
+  gfv = tr_get_formula_value(find_method(eng, 'Engine', 'get_formula_value'))
+  out += ['(* Engine.get_formula_value: (guard, step) in source order *)',
+          'Definition gen_get_formula_value : list (eguard * fcall) :=\n  [%s].' % '; '.join('(%s, %s)' % gc for gc in gfv), '']
   pins, changed = {}, []
   for k in PIN_LIST:
     got = norm_hash(find_method(trees[k[0]], k[1], k[2]))
@@ -455,6 +513,9 @@ PIN_VALUES = {
   ('engine.py', 'Engine', 'apply_user_actions'): '86b424f7b42b0617',
   ('engine.py', 'Engine', 'apply_doc_action'): 'b8a0ea962e3635ab',
   ('engine.py', 'Engine', '_apply_one_user_action'): 'a74810b847b6936e',
+  ('engine.py', 'Engine', 'get_formula_value'): '4bf6737bf2e3a8dc',
+  ('docmodel.py', 'DocModel', 'apply_auto_removes'): '02f9cc53a2b93422',
+  ('docmodel.py', 'DocModel', 'setAutoRemove'): 'ba6c61c95d4c94e4',
   ('docactions.py', 'DocActions', 'BulkAddRecord'): '1b7c3f579472d60f',
   ('docactions.py', 'DocActions', 'BulkRemoveRecord'): '2f43a0fd0af056d1',
   ('docactions.py', 'DocActions', 'BulkUpdateRecord'): '19510195eae84d42',
